@@ -5,6 +5,7 @@
    V <repo|tag|digest> <hex>   one component validator
    A <hexalg> <true|false>     configuration: is the hash implementation linked into the harness binary
    F <hexreg> <hexrepo> <hexref>   Reference.String()
+   Q <referrers|mount> <plain> <hexreg> <hexrepo> <hexref> <hexarg>   query-carrying URL builders
    G <hexreg>                  Reference.ValidateRegistry (Model/NetURL.v)
    O <op> <plain> <hexreg> <hexrepo> <hexinput> <hexdescdigest>   requests of a reference-taking operation *)
 let show_verdict v =
@@ -26,6 +27,18 @@ let () =
       if v = "true" then unavailable := List.filter (fun x -> x <> a) !unavailable
       else unavailable := a :: !unavailable;
       Printf.printf "%s AVAIL %s\n" id v
+    | [id; "Q"; kind; plain; hr; hp; hf; ha] ->
+      let unh h = if h = "-" then [] else str_of_hex h in
+      let r = { r_registry = unh hr; r_repository = unh hp; r_reference = unh hf } in
+      let p = (plain = "1") in
+      let u = match kind with
+        | "referrers" -> url_referrers_at p r (unh ha)
+        | "mount" -> url_mount p r (unh hf) (unh ha)
+        | _ -> failwith "qkind" in
+      let ho o = match o with None -> "none" | Some s -> "some:" ^ hex_of_str s in
+      (match url_split u with
+       | Some q -> Printf.printf "%s URL %s SPLIT %s %s %s %s %s\n" id (hex_of_str u) (hex_of_str q.u_scheme) (hex_of_str q.u_authority) (hex_of_str q.u_path) (ho q.u_query) (ho q.u_fragment)
+       | None -> Printf.printf "%s URL %s NOSPLIT\n" id (hex_of_str u))
     | [id; "G"; h] ->
       let reg = if h = "-" then [] else str_of_hex h in
       (match go_registry_verdict reg with
